@@ -11,7 +11,7 @@ use serde_json::{json, Value};
 
 pub const LEVEL: &str = "exploration";
 pub const EXHAUSTIVE: bool = false;
-pub const RULE: &str = "generated case = (phonetic options, learned-selection store built through the API before the case: 0..3 real non-preselected commits on the word / a prefix / the suffixed word, optional user auto-correct file, target text T = wrapper + base [+ suffix key] + wrapper or an arbitrary string, final selection byte, edit script that reaches T[..n-1] through junk-then-backspace bursts and delete-and-retype steps, warm-up of 0..5 words typed before (proper prefixes, extensions, case variants, other suffixes of T's word, unrelated words; each finished or committed at the preselected index), interleaving plan for a second context in the same thread). Oracle (differential): the complete rendering (variant, auxiliary text, ordered candidates, preselected index, every pre-edit text) returned by the final key in the warm/edited/interleaved context equals the rendering in a brand-new context that types T directly with the same final selection byte; store file unchanged by the case. Non-trivial: the word part has >= 3 characters and the script contains a backspace or a warm-up word related to T; distinct by (options, store, T, script, warm-up).";
+pub const RULE: &str = "generated case = (phonetic options, learned-selection store built through the API before the case: 0..3 real non-preselected commits on the word / a prefix / the suffixed word, optional user auto-correct file, target text T = wrapper + base [+ suffix key] + wrapper or an arbitrary string, final selection byte, edit script that reaches T[..n-1] through junk-then-backspace bursts and delete-and-retype steps, warm-up of 0..5 words typed before (proper prefixes, extensions, case variants, other suffixes of T's word, unrelated words; each finished or committed at the preselected index), interleaving plan for a second context in the same thread). Oracle (differential): the complete rendering (variant, auxiliary text, ordered candidates, preselected index, every pre-edit text) returned by the final key in the warm/edited/interleaved context equals the rendering in a brand-new context that types T directly with the same final selection byte; store file unchanged by the case. Non-trivial: the word part has >= 3 characters and the script contains a backspace or a warm-up word related to T; distinct by (options, store, T, script, warm-up). In the long-lived part a share of the cases first lets the user's auto-correct list gain an entry for the target's word and lose / change it again (update-engine while idle after each edit); the brand-new context is created over the files in force when the target is typed.";
 pub const ASSUMPTIONS: &[&str] = &[
     "configuration, data files, user files and the final selection byte are identical in both runs",
     "contexts are not Send: same-thread interleaving is the whole schedule space",
